@@ -1738,7 +1738,7 @@ def randomizer_bin_und(R, alpha, seed=None):
         randomized network
     '''
     rng = get_rng(seed)
-    R = binarize(R, copy=True)  # binarize
+    R = binarize(R, copy=True).astype(float)  # binarize (float: the diagonal holds an inf sentinel)
     if not np.allclose(R, R.T):
         raise BCTParamError(
             'randomizer_bin_und only takes undirected matrices')
